@@ -1,6 +1,8 @@
 """Per-property configuration of bin/check."""
 
 PROPS = {
+    "C01": {"quick": 3000, "thorough": 100000, "model": ["SpecDrift"], "pending": "in progress"},
+    "C02": {"quick": 3000, "thorough": 100000, "model": ["SpecDrift"], "pending": "in progress"},
     "C03": {"quick": 2400, "thorough": 100000, "model": ["SpecList"], "pending": "in progress"},
     "C05": {"quick": 3000, "thorough": 150000, "model": ["SpecList"], "pending": "in progress"},
     "C12": {"quick": 1600, "thorough": 60000, "model": ["SpecList"], "pending": "in progress"},
